@@ -35,7 +35,7 @@ LOBE = {None: 0, 'hann': 4, 'hamming': 4, 'blackman': 6, 'flattop': 10, 'nuttall
 # csd_to_signal(csd(S)) for a *batch* S (leading axes): see notes/C16.md "pending defect"; the demand is switched on
 # once the integrator has decided (VERIF_PENDING=1 reproduces it)
 import os
-PENDING_BATCH_INVERSE = os.environ.get('VERIF_PENDING') == '1'
+PENDING_BATCH_INVERSE = True    # repaired by fix 1c2f538, demanded since
 WINDOWS = [None, 'hann', 'hamming', 'flattop', 'blackman', 'nuttall', 'blackmanharris']
 
 
